@@ -29,7 +29,7 @@ pub fn plan() -> Plan {
         profiles,
         directed: vec![],
         quick_histories: 400,
-        thorough_histories: 60000,
+        thorough_histories: 240_000,
         s5: None,
         enumerate_session_end: Some((12, 1500, {
             let mut e = base_profile("c08-enumerated");
